@@ -212,6 +212,10 @@ def am_sweep(K, body, h):
     for p in il.cont_paths:
         fx = K._one(body, p, "x", None)
         gs = [(a, v) for a, v in fx.all_guards() if isinstance(a, tuple) and a[0] == "call" and a[1] == MOD + "fails_when_released"]
+        if not gs:
+            # the helper written out in place:  AM[i].from.contains(&x)   (what fails_when_released is shown to compute)
+            gs = [(T("call", MOD + "fails_when_released", (a[2], a[1]), None), v) for a, v in fx.all_guards()
+                  if isinstance(a, tuple) and a[0] == "in" and isinstance(mir.strip(a[2]), tuple) and mir.strip(a[2])[0] == "field" and mir.strip(a[2])[2] == "from"]
         if len(gs) != 1:
             probs.append("path does not test fails_when_released exactly once")
             continue
@@ -237,8 +241,17 @@ def am_sweep(K, body, h):
 
 def fails_when_released_table(ctx):
     """fails_when_released(trigger, key) == key in trigger ?"""
+    if not ctx.has_body(MOD + "fails_when_released"):
+        return True, ""      # no such helper any more: the sweeps ask `from.contains(&x)` themselves (am_sweep reads that form)
     b = ctx.body(MOD + "fails_when_released")
     loops = list(b.loops())
+    if not loops:
+        # trigger.contains(&key) / trigger.iter().any(|k| *k == key)
+        rs = [p for p in mir.walk_function(b) if p.outcome[0] == "return"]
+        if len(rs) == 1 and not [e for e in rs[0].events if e.kind == "guard"]:
+            r = mir.strip(rs[0].outcome[1])
+            if isinstance(r, tuple) and r[0] == "in" and mir.strip(r[1]) == T("param", 2, b.dbg.get(2, "")) and mir.strip(r[2]) == T("param", 1, b.dbg.get(1, "")):
+                return True, ""
     if len(loops) != 1:
         return False, "expected one loop"
     from . import tables
